@@ -8,6 +8,17 @@ pub type Name = Seq<char>;
 pub struct TplMap { _p: () }
 impl TplMap {
     pub uninterp spec fn names(&self) -> Set<Name>;
+    /// the template registered under a name
+    pub uninterp spec fn tpl_of(&self, n: Name) -> &Template;
+    /// HashMap::contains_key
+    #[verifier::external_body]
+    pub fn contains_key(&self, k: &str) -> (r: bool) ensures r == self.names().contains(k@) { unimplemented!() }
+    /// `&map[k]` (std contract of Index for HashMap: panics on a missing key, else the entry)
+    #[verifier::external_body]
+    pub fn vx_index(&self, k: &str) -> (r: &Template)
+        requires self.names().contains(k@)
+        ensures r == self.tpl_of(k@)
+    { unimplemented!() }
     /// HashMap::get_key_value: exact lookup, returns the stored key
     #[verifier::external_body]
     pub fn get_key_value(&self, k: &str) -> (r: Option<(&String, &Template)>)
@@ -22,3 +33,10 @@ pub struct Tera { pub templates: TplMap, pub fallback_prefixes: Vec<CowStr>, pub
 /// `format!("{}{}", prefix, name)`: concatenation (std contract of Display for str/Cow<str>)
 #[verifier::external_body]
 pub fn vx_concat(prefix: &CowStr, name: &str) -> (r: String) ensures r@ == prefix.text() + name@ { unimplemented!() }
+#[verifier::external_body]
+pub struct Error { _p: () }
+pub type TeraResult<T> = Result<T, Error>;
+impl Error {
+    #[verifier::external_body]
+    pub fn template_not_found(name: &str) -> Error { unimplemented!() }
+}
